@@ -49,6 +49,8 @@ structure GParam where
   full : TS
   /-- followed by a comma in the `Punctuated` -/
   punct : Bool
+  /-- the parameter as `ImplGenerics` prints it (bounds kept, defaults left off) -/
+  implForm : TS := []
   deriving Repr, Inhabited
 
 inductive RawBody
@@ -104,9 +106,9 @@ def decodeVariant : Tok → Option RawVariant
   | _ => none
 
 def decodeGParam : Tok → Option GParam
-  | .group .paren [.ident k, .group .paren name, .group .paren full, .ident pn] => do
+  | .group .paren [.ident k, .group .paren name, .group .paren full, .ident pn, .group .paren implForm] => do
     let kind ← (match k with | "lt" => some GKind.lifetime | "ty" => some .type | "const" => some .const | _ => none)
-    some { kind := kind, name := name, full := full, punct := pn == "y" }
+    some { kind := kind, name := name, full := full, punct := pn == "y", implForm := implForm }
   | _ => none
 
 def decodeInput : TS → Option RawInput
